@@ -142,7 +142,7 @@ pub fn render_steps(dice: &[[u8; 4]]) -> Vec<StepText> {
     for (i, d) in dice.iter().enumerate() {
         let mut st = StepText::default();
         let mut kind = K::Ok;
-        let choice = d[0] % 34;
+        let choice = d[0] % 40;
         let text = match choice {
             1 if !env.of(K::Int).is_empty() => {
                 let v = pick(d[1], &env.of(K::Int)).0.clone();
@@ -247,12 +247,12 @@ pub fn render_steps(dice: &[[u8; 4]]) -> Vec<StepText> {
                 let u = pick(d[1], &env.of(K::UVal)).0.clone();
                 if d[2] % 2 == 0 { format!("{u} {{ | ='int => 1 | ='bin => 2 }}") } else { format!("{u} {{ | ='bin => 2 | ='int => 1 }}") }
             }
-            31 => {
+            31 | 34 | 35 => {
                 let n = env.fresh("mk");
                 env.bind(&n, K::Mk, i);
                 format!("{n} = #<'t>'t {{ G[p: ~, q: E] }}")
             }
-            32 if !env.of(K::Mk).is_empty() => {
+            32 | 36 | 37 if !env.of(K::Mk).is_empty() => {
                 let mk = pick(d[1], &env.of(K::Mk)).0.clone();
                 let n = env.fresh("ga");
                 let atom = int_atom(d[2], &env);
@@ -260,15 +260,17 @@ pub fn render_steps(dice: &[[u8; 4]]) -> Vec<StepText> {
                 env.bind(&format!("{n}v"), K::Other, i);
                 format!("{n} = G[p: {atom}, q: E], {n}v = {atom} {mk}")
             }
-            33 if !env.of(K::GPair).is_empty() => {
+            33 | 38 | 39 if !env.of(K::GPair).is_empty() => {
                 // structural equality of two values with different internal tuple ids, possibly
                 // on a later line than the one that introduced the tuple shapes
                 let a = pick(d[1], &env.of(K::GPair)).0.clone();
                 st.equality = true;
+                // as a branch, so that the step (hence the line) is never nil — not even statically
+                kind = K::Int;
                 match d[2] % 3 {
-                    0 => format!("{a} =&{a}v"),
-                    1 => format!("{a}v =&{a}"),
-                    _ => format!("Wr[{a}] =Wr[&{a}v]"),
+                    0 => format!("{{ {a} =&{a}v => 1 | 0 }}"),
+                    1 => format!("{{ {a}v =&{a} => 1 | 0 }}"),
+                    _ => format!("{{ Wr[{a}] =Wr[&{a}v] => 1 | 0 }}"),
                 }
             }
             // expression steps
